@@ -283,6 +283,7 @@ def run_shard(spec, ctx):
 
             BFm, Bm = ns.bf3file, ns.bec2file
             codes = yieldrun.code_objects_of(BFm, BFm.Bf3File, BFm.Bf3Component, Bm.Bec2File, Bm.AesEncryptorMixin, Bm.SoftwareCustKeyEncryptor, Bm.InitCustKeyAuthBlock, Bm.UpdateAuthBlock, Bm.AuthBlock, ns.plugin.AES128Proxy, ns.aes.AESModeOfOperationCBC)
+            codes += [c_ for c_ in yieldrun.code_objects_of_module(ns.bf3file, ns.bec2file, ns.crypto, ns.plugin) if c_ not in codes]  # module-level helpers and every class of these modules
             total = 0
             for rnd in range(spec["rounds"]):
                 nthreads = (2, 3)[rnd % 2]
